@@ -1551,9 +1551,13 @@ impl<'ascent, 'grammar, W: Write> CodeGenerator<'ascent, 'grammar, W, TableDrive
             &self.grammar.terminals.all
         };
         for terminal in all_terminals {
-            // Three # should hopefully be enough to prevent any
-            // reasonable terminal from escaping the literal
-            rust!(self.out, "r###\"{}\"###,", terminal);
+            // Three # are normally enough to prevent a terminal from
+            // escaping the literal; the helper adds more when needed
+            rust!(
+                self.out,
+                "{},",
+                super::base::raw_string_literal(&terminal.to_string())
+            );
         }
         rust!(self.out, "];");
         Ok(())
